@@ -355,6 +355,8 @@ def c13(k, ctx):
                 "per-worker outcome scripts and random 0-200 us delays, with/without the outer-code threshold, 1-2 Eb/N0 points, Reporter interval 0; plus fault injection: puncturer misfit "
                 "(stage error), interleaver misfit and 8PSK misfit (stage panics in every worker), decoder panicking in some workers; non-trivial = distinct runs with at least two workers or a fault")
     ctx.tlc_mc("MC_BerEngine", "MC_BerEngine_thorough.cfg" if ctx.thorough else "MC_BerEngine.cfg")
+    if ctx.thorough:
+        ctx.tlc_mc("MC_BerEngine", "MC_BerEngine_all.cfg", timeout=2400)       # all four outcome kinds (incl. "gave up but right") at W = 2
     ctx.tlc_mc("MC_BerEngine", "MC_BerEngine_bch.cfg")
     ctx.tlc_mc("MC_BerEngine", "MC_BerEngine_live.cfg", coverage=False)                       # liveness: termination under weak fairness, all fault modes
     ctx.tlc_mc("MC_BerEngine", "MC_BerEngine_neg.cfg", expect_violation=True)                 # collector keeps a sender + stage panic: blocked in recv (D7)
